@@ -57,7 +57,7 @@ class C15(Config):
     audit_dirs = ["Lib", "Gen", "C15"]
     header = ("From V.Lib Require Import Base.\n"
               "From V.Gen Require Import C15Tables.\n"
-              "From V.C15 Require Import Model Spec Corr Wf.\n"
+              "From V.C15 Require Import Model Spec Sem Corr Wf.\n"
               "Local Open Scope Z_scope.")
     bin = "c15"
     release_too = True
